@@ -411,7 +411,17 @@ theorem docOk_root (T : Table) (op : OpDef) (h : docOk T op = true) :
 
 -- ------------------------------------------------------------------ the request
 
-/-- hypotheses of the request-level theorem -/
+/-- hypotheses of the request-level theorems -/
+structure ReqBase (T : Table) (op : OpDef) (raw : List (String × GValue)) : Prop where
+  hw : wfTable2 T = true
+  hdf : fieldDefaultsOk T
+  hda : ∀ sig ∈ T.fields, ∀ a ∈ sig.args, ∀ d, a.default = some d →
+    parseD Defects.none T a.ty d = some (view T a.ty d)
+  hdoc : docOk T op = true
+  hsmall : ∀ p ∈ raw, intsSmall p.2 = true
+  hkeys : ∀ p ∈ raw, distinctKeys p.2 = true
+
+/-- … for documents whose arguments are variables or variable-free literals -/
 structure ReqHyp (T : Table) (op : OpDef) (raw : List (String × GValue)) : Prop where
   hw : wfTable2 T = true
   hdf : fieldDefaultsOk T
@@ -422,19 +432,22 @@ structure ReqHyp (T : Table) (op : OpDef) (raw : List (String × GValue)) : Prop
   hsmall : ∀ p ∈ raw, intsSmall p.2 = true
   hkeys : ∀ p ∈ raw, distinctKeys p.2 = true
 
-theorem ReqHyp.varCtx {T : Table} {op : OpDef} {raw : List (String × GValue)} (H : ReqHyp T op raw)
+theorem ReqHyp.base {T : Table} {op : OpDef} {raw : List (String × GValue)} (H : ReqHyp T op raw) :
+    ReqBase T op raw := ⟨H.hw, H.hdf, H.hda, H.hdoc, H.hsmall, H.hkeys⟩
+
+theorem ReqBase.varCtx {T : Table} {op : OpDef} {raw : List (String × GValue)} (H : ReqBase T op raw)
     (vars : List (String × GValue)) (hcv : coerceVars T op.vars raw = some vars) :
     VarCtx T op.vars raw vars :=
   ⟨(docOk_vars T op H.hdoc).1, hcv, H.hkeys, fun vd hvd d hd => ((docOk_vars T op H.hdoc).2 vd hvd d hd).2⟩
 
-/-- per argument of a root field of a valid flat document -/
-theorem ReqHyp.arg {T : Table} {op : OpDef} {raw : List (String × GValue)} (H : ReqHyp T op raw)
+/-- per argument of a root field of a valid document -/
+theorem ReqBase.arg {T : Table} {op : OpDef} {raw : List (String × GValue)} (H : ReqBase T op raw)
     (r : Root) (hr : r ∈ rootFields op) (sig : FieldSig) (hsig : T.field? r.2.1 = some sig)
     (a : InField) (ha : a ∈ sig.args) :
     (∀ d, a.default = some d → parseD Defects.none T a.ty d = some (view T a.ty d)) ∧
     (lookup r.2.2 a.name = none → (!a.ty.gql.isNonNull || a.default.isSome) = true) ∧
     (∀ dv, lookup r.2.2 a.name = some dv →
-      litOk T op.vars a.ty.gql a.default.isSome dv = true ∧ flatArg dv = true) := by
+      litOk T op.vars a.ty.gql a.default.isSome dv = true ∧ (a.name, dv) ∈ r.2.2) := by
   obtain ⟨sig', hsig', hlit, hreq⟩ := docOk_root T op H.hdoc r hr
   rw [hsig] at hsig'; cases hsig'
   refine ⟨H.hda sig (List.mem_of_find?_eq_some hsig) a ha, ?_, ?_⟩
@@ -447,10 +460,24 @@ theorem ReqHyp.arg {T : Table} {op : OpDef} {raw : List (String × GValue)} (H :
     have := find_self sig.args (wfTable2_args H.hw hsig) a ha
     simp only at hd
     rw [this] at hd; cases hd
-    refine ⟨hlk, ?_⟩
-    have := H.hflat
-    simp only [flatOp, List.all_eq_true] at this
-    exact this r hr _ hmem
+    exact ⟨hlk, hmem⟩
+
+/-- per argument of a root field of a valid flat document -/
+theorem ReqHyp.arg {T : Table} {op : OpDef} {raw : List (String × GValue)} (H : ReqHyp T op raw)
+    (r : Root) (hr : r ∈ rootFields op) (sig : FieldSig) (hsig : T.field? r.2.1 = some sig)
+    (a : InField) (ha : a ∈ sig.args) :
+    (∀ d, a.default = some d → parseD Defects.none T a.ty d = some (view T a.ty d)) ∧
+    (lookup r.2.2 a.name = none → (!a.ty.gql.isNonNull || a.default.isSome) = true) ∧
+    (∀ dv, lookup r.2.2 a.name = some dv →
+      litOk T op.vars a.ty.gql a.default.isSome dv = true ∧ flatArg dv = true) := by
+  obtain ⟨h1, h2, h3⟩ := H.base.arg r hr sig hsig a ha
+  refine ⟨h1, h2, ?_⟩
+  intro dv hl
+  obtain ⟨hlk, hmem⟩ := h3 dv hl
+  refine ⟨hlk, ?_⟩
+  have := H.hflat
+  simp only [flatOp, List.all_eq_true] at this
+  exact this r hr _ hmem
 
 theorem ReqHyp.root_eq {T : Table} {op : OpDef} {raw : List (String × GValue)} (H : ReqHyp T op raw)
     (vars : List (String × GValue)) (hcv : coerceVars T op.vars raw = some vars) :
@@ -461,7 +488,7 @@ theorem ReqHyp.root_eq {T : Table} {op : OpDef} {raw : List (String × GValue)} 
   apply paramValues_eq T op.vars raw vars r.2.2 sig.args (wfTable2_args H.hw hsig)
   intro a ha
   obtain ⟨h1, _, h3⟩ := H.arg r hr sig hsig a ha
-  exact paramValue_eq T H.hw H.hdf op.vars raw vars (H.varCtx vars hcv) r.2.2 a h1 h3
+  exact paramValue_eq T H.hw H.hdf op.vars raw vars (H.base.varCtx vars hcv) r.2.2 a h1 h3
 
 theorem ReqHyp.root_invalid {T : Table} {op : OpDef} {raw : List (String × GValue)} (H : ReqHyp T op raw)
     (vars : List (String × GValue)) (hcv : coerceVars T op.vars raw = some vars)
@@ -470,11 +497,11 @@ theorem ReqHyp.root_invalid {T : Table} {op : OpDef} {raw : List (String × GVal
   simp only [fieldValid, List.all_eq_false] at hinv
   obtain ⟨a, ha, hbad⟩ := hinv
   obtain ⟨_, h2, h3⟩ := H.arg r hr sig hsig a ha
-  have := argInvalid_coerceArg T H.hw op.vars raw vars (H.varCtx vars hcv) r.2.2 a h2 h3
+  have := argInvalid_coerceArg T H.hw op.vars raw vars (H.base.varCtx vars hcv) r.2.2 a h2 h3
     (by simp only [fieldValid, List.all_cons, List.all_nil, Bool.and_true]; exact Bool.eq_false_iff.mpr hbad)
   simp [specOf, hsig, fieldArgs, coerceArgs_none T vars r.2.2 sig.args a ha this]
 
-theorem ReqHyp.defaultsValid {T : Table} {op : OpDef} {raw : List (String × GValue)} (H : ReqHyp T op raw) :
+theorem ReqBase.defaultsValid {T : Table} {op : OpDef} {raw : List (String × GValue)} (H : ReqBase T op raw) :
     ∀ np, varDefaultsValid np T op.vars = true := by
   intro np
   simp only [varDefaultsValid, List.all_eq_true]
@@ -485,7 +512,7 @@ theorem ReqHyp.defaultsValid {T : Table} {op : OpDef} {raw : List (String × GVa
     obtain ⟨⟨c, hc⟩, _⟩ := (docOk_vars T op H.hdoc).2 vd hvd d hd
     exact coerce_valid np T H.hw d vd.ty c (coerce_mono T _ _ _ hc)
 
-theorem ReqHyp.valuesValid {T : Table} {op : OpDef} {raw : List (String × GValue)} (H : ReqHyp T op raw)
+theorem ReqBase.valuesValid {T : Table} {op : OpDef} {raw : List (String × GValue)} (H : ReqBase T op raw)
     (vars : List (String × GValue)) (hcv : coerceVars T op.vars raw = some vars) :
     ∀ np, varValuesValid np T op.vars raw = true := by
   intro np
@@ -501,7 +528,7 @@ theorem ReqHyp.valuesValid {T : Table} {op : OpDef} {raw : List (String × GValu
     | some d => simp
     | none => simp [h2 hl hd]
 
-theorem ReqHyp.vars_exist {T : Table} {op : OpDef} {raw : List (String × GValue)} (H : ReqHyp T op raw)
+theorem ReqBase.vars_exist {T : Table} {op : OpDef} {raw : List (String × GValue)} (H : ReqBase T op raw)
     (hv : varValuesValid false T op.vars raw = true) : ∃ vars, coerceVars T op.vars raw = some vars := by
   apply coerceVars_exists
   simp only [varValuesValid, List.all_eq_true] at hv
@@ -516,7 +543,7 @@ theorem ReqHyp.vars_exist {T : Table} {op : OpDef} {raw : List (String × GValue
   · intro hl hd
     simpa [hl, hd] using this
 
-theorem ReqHyp.request_none {T : Table} {op : OpDef} {raw : List (String × GValue)} (H : ReqHyp T op raw)
+theorem ReqBase.request_none {T : Table} {op : OpDef} {raw : List (String × GValue)} (H : ReqBase T op raw)
     (hcv : coerceVars T op.vars raw = none) :
     (run Defects.none T op raw).status = .reqerr ∧
     (run Defects.none T op raw).fields = (rootFields op).map (fun f => (f.1, Outcome.notInvoked)) := by
@@ -528,8 +555,13 @@ theorem ReqHyp.request_none {T : Table} {op : OpDef} {raw : List (String × GVal
   have hD : Defects.none.varValueNotCoerced = false := rfl
   simp [run, hnp, hC, hD]
 
-theorem ReqHyp.request_some {T : Table} {op : OpDef} {raw : List (String × GValue)} (H : ReqHyp T op raw)
-    (vars : List (String × GValue)) (hcv : coerceVars T op.vars raw = some vars) :
+/-- the request, given the two facts about single root fields: the code computes what the
+    specification requires, and validation refuses a field only when its coercion fails -/
+theorem ReqBase.request_some {T : Table} {op : OpDef} {raw : List (String × GValue)} (H : ReqBase T op raw)
+    (vars : List (String × GValue)) (hcv : coerceVars T op.vars raw = some vars)
+    (hroot : ∀ r ∈ rootFields op, implOf T op.vars raw r = specOf T vars r)
+    (hrinv : ∀ r ∈ rootFields op, ∀ sig, T.field? r.2.1 = some sig →
+      fieldValid Defects.none T raw sig r.2.2 = false → specOf T vars r = none) :
     ((run Defects.none T op raw).status = .ok ↔
       ((rootFields op).map (fun r => (r.1, specOf T vars r))).all (·.2.isSome) = true) ∧
     ∀ p ∈ ((rootFields op).map (fun r => (r.1, specOf T vars r))).zip (run Defects.none T op raw).fields,
@@ -546,7 +578,7 @@ theorem ReqHyp.request_some {T : Table} {op : OpDef} {raw : List (String × GVal
     obtain ⟨r, hr, hbad⟩ := hbad
     obtain ⟨sig, hsig, _⟩ := docOk_root T op H.hdoc r hr
     simp only [hsig] at hbad
-    have hnone := H.root_invalid vars hcv r hr sig hsig (Bool.eq_false_iff.mpr hbad)
+    have hnone := hrinv r hr sig hsig (Bool.eq_false_iff.mpr hbad)
     have hany : ((rootFields op).map (fun r => (r.1, specOf T vars r))).any (·.2.isNone) = true := by
       simp only [List.any_map, List.any_eq_true]
       exact ⟨r, hr, by simp [hnone]⟩
@@ -558,7 +590,7 @@ theorem ReqHyp.request_some {T : Table} {op : OpDef} {raw : List (String × GVal
     simp only [List.zip_map', List.mem_map] at hp
     obtain ⟨r', _, rfl⟩ := hp
     exact ⟨rfl, fun args _ => Or.inr ⟨hany, Or.inr rfl⟩, fun _ => Or.inr rfl⟩
-  · have hexec := exec_spec T op.vars raw vars (rootFields op) false (H.root_eq vars hcv)
+  · have hexec := exec_spec T op.vars raw vars (rootFields op) false hroot
     have key : ∀ (f : String × Outcome → Bool), (∀ o, f o = isSeen o.2) →
         (execFields Defects.none T op.vars raw (rootFields op) false).all f =
         (execFields Defects.none T op.vars raw (rootFields op) false).all (fun o => isSeen o.2) := by
@@ -580,5 +612,23 @@ theorem ReqHyp.request_some {T : Table} {op : OpDef} {raw : List (String × GVal
         rcases h2.1 with h | h
         · cases h
         · rw [List.any_map]; exact h
+
+theorem ReqHyp.request_none {T : Table} {op : OpDef} {raw : List (String × GValue)} (H : ReqHyp T op raw)
+    (hcv : coerceVars T op.vars raw = none) :
+    (run Defects.none T op raw).status = .reqerr ∧
+    (run Defects.none T op raw).fields = (rootFields op).map (fun f => (f.1, Outcome.notInvoked)) :=
+  H.base.request_none hcv
+
+theorem ReqHyp.request_some {T : Table} {op : OpDef} {raw : List (String × GValue)} (H : ReqHyp T op raw)
+    (vars : List (String × GValue)) (hcv : coerceVars T op.vars raw = some vars) :
+    ((run Defects.none T op raw).status = .ok ↔
+      ((rootFields op).map (fun r => (r.1, specOf T vars r))).all (·.2.isSome) = true) ∧
+    ∀ p ∈ ((rootFields op).map (fun r => (r.1, specOf T vars r))).zip (run Defects.none T op raw).fields,
+      p.1.1 = p.2.1 ∧
+      (∀ args, p.1.2 = some args → p.2.2 = .seen args ∨
+        (((rootFields op).map (fun r => (r.1, specOf T vars r))).any (·.2.isNone) = true ∧
+          (p.2.2 = .err ∨ p.2.2 = .notInvoked))) ∧
+      (p.1.2 = none → p.2.2 = .err ∨ p.2.2 = .notInvoked) :=
+  H.base.request_some vars hcv (H.root_eq vars hcv) (H.root_invalid vars hcv)
 
 end AGV.Lemmas.Coerce
